@@ -43,6 +43,10 @@ VARIANTS = [
     ('t_plain', {'terminal': True}),
     ('t_ctr', {'terminal': True, 'center': [0, 3.5]}),
     ('t_fixed', {'terminal': True, 'fixed': True, 'center': [1, 1]}),
+    # explicit 'fixed: false' (the default) in both key orders: in mappings the order of the keys is irrelevant
+    ('t_fixedfalse', {'terminal': True, 'fixed': False, 'center': [2, 1]}),
+    ('t_falsefixed', {'fixed': False, 'terminal': True, 'center': [2, 1]}),
+    ('s_fixedfalse', {'fixed': False, 'area': 3}),
 ]
 VIDX = {n: i for i, (n, _) in enumerate(VARIANTS)}
 WEIGHTS = [None, 1, 2, 0.5]
